@@ -32,7 +32,7 @@ class VSharpNetConfig(ModelConfig):
     image_didn_num_convs_recon: int = 9
     image_conv_hidden_channels: int = 64
     image_conv_n_convs: int = 15
-    image_conv_activation: str = ActivationType.RELU
+    image_conv_activation: ActivationType = ActivationType.RELU
     image_conv_batchnorm: bool = False
 
 
